@@ -15,7 +15,7 @@ import (
 
 type C12BCase struct {
 	Cmd       int  `json:"cmd"`        // 0 BLPOP 1 BRPOP 2 BLMOVE 3 BRPOPLPUSH 4 BLMPOP
-	TimeoutMs int  `json:"timeout_ms"` // 0 = wait forever
+	TimeoutUs int  `json:"timeout_us"` // microseconds; 0 = wait forever
 	InMulti   bool `json:"in_multi"`
 	Again     bool `json:"again"` // block a second time on the same connection afterwards
 }
@@ -24,9 +24,10 @@ func c12BGen(t *rapid.T) C12BCase {
 	c := C12BCase{Cmd: rapid.IntRange(0, 4).Draw(t, "cmd"), InMulti: rapid.IntRange(0, 3).Draw(t, "multi") == 0, Again: rapid.Bool().Draw(t, "again")}
 	switch rapid.IntRange(0, 5).Draw(t, "tkind") {
 	case 0:
-		c.TimeoutMs = 0
+		c.TimeoutUs = 0
 	default:
-		c.TimeoutMs = pick(t, "ms", 10, 15, 25, 33, 50, 75, 100, 120, 150, 250, 300)
+		// whole and fractional milliseconds, below one millisecond too
+		c.TimeoutUs = pick(t, "us", 400, 900, 1500, 2700, 10900, 15000, 25000, 33333, 50000, 75500, 100000, 120000, 150000, 250000, 300000)
 	}
 	return c
 }
@@ -49,7 +50,7 @@ func c12BRun(c C12BCase, st *kit.Stats) error {
 	emu := kit.StartEmu("")
 	defer emu.Stop()
 	conn, other := emu.Dial(), emu.Dial()
-	timeout := strconv.FormatFloat(float64(c.TimeoutMs)/1000, 'f', -1, 64)
+	timeout := strconv.FormatFloat(float64(c.TimeoutUs)/1e6, 'f', -1, 64)
 	argv := c12BCmd(c, timeout)
 	rounds := 1
 	if c.Again {
@@ -82,7 +83,7 @@ func c12BRun(c C12BCase, st *kit.Stats) error {
 		if err := conn.Write(kit.EncodeCmd(argv...)); err != nil {
 			return err
 		}
-		if c.TimeoutMs == 0 {
+		if c.TimeoutUs == 0 {
 			// must still be blocked after 300 ms, and complete on a later push
 			if v, err := conn.Read(300 * time.Millisecond); err != kit.ErrTimeout {
 				return fmt.Errorf("%v with timeout 0 ended after %v without any push: %v %v", argv, time.Since(t0), v, err)
@@ -98,7 +99,7 @@ func c12BRun(c C12BCase, st *kit.Stats) error {
 			st.Class("timeout-0")
 			continue
 		}
-		v, err := conn.Read(time.Duration(c.TimeoutMs)*time.Millisecond + 2*time.Second)
+		v, err := conn.Read(time.Duration(c.TimeoutUs)*time.Microsecond + 2*time.Second)
 		d := time.Since(t0)
 		if err != nil {
 			return fmt.Errorf("%v did not complete within timeout + 2 s: %v", argv, err)
@@ -106,7 +107,7 @@ func c12BRun(c C12BCase, st *kit.Stats) error {
 		if v.K != kit.KNil {
 			return fmt.Errorf("%v timed out with %s, expected a null reply", argv, v)
 		}
-		if d < time.Duration(c.TimeoutMs)*time.Millisecond {
+		if d < time.Duration(c.TimeoutUs)*time.Microsecond {
 			return fmt.Errorf("%v completed after %v, earlier than its timeout", argv, d)
 		}
 		st.Class("timed-out")
@@ -115,7 +116,7 @@ func c12BRun(c C12BCase, st *kit.Stats) error {
 	if v, err := conn.Do("PING"); err != nil || !kit.Equal(v, kit.Simple("PONG")) {
 		return fmt.Errorf("PING after the block replied %v %v", v, err)
 	}
-	if c.TimeoutMs%1000 != 0 {
+	if c.TimeoutUs%1000000 != 0 {
 		st.NonTrivial(fmt.Sprintf("%+v", c), map[string]any{"cmd": argv, "in_multi": c.InMulti, "again": c.Again})
 	}
 	return nil
